@@ -55,7 +55,7 @@ def c07Ops : List (String × Handler) := [
       | [tc, ts, rho] => pure ((⟨tc, ts⟩ : Dir ℚ), rho)
       | _ => .error "offset needs 3 numbers"
     -- the WCS parameter: image of the centre and what the helper returns there
-    let w : Wcs SkyQ ℚ := ⟨fun _ => p0, fun _ => ⟨0, 0⟩, fun _ => ⟨s, n, 0⟩, fun _ => p0⟩
+    let w : Wcs SkyQ ℚ := ⟨fun _ => p0, fun _ => ⟨0, 0⟩, fun _ => ⟨s, n, 0⟩⟩
     let pix := r.toPixel w
     let imgs := offs.map fun (θ, ρ) => simImage p0 s n θ ρ
     pure (Json.mkObj [("pix", ofPixR pix),
